@@ -9,6 +9,7 @@ import (
 	"sort"
 	"strings"
 	"sync"
+	"syscall"
 	"testing"
 	"testing/synctest"
 	"time"
@@ -423,6 +424,17 @@ func runC14Bubble(t *testing.T, tape *sim.Tape, tier string, o *Outcome, schedp 
 			sched.WriteString("|")
 			o.Steps++
 		}
+		// one run in eight ends with descriptor exhaustion: the next Accept calls of every listener fail with EMFILE
+		// (an accept loop may give up or try again; whatever the loops do then, they do it at the same time)
+		if running && tape.Draw(8, "acceptfaults") == 7 {
+			k := fn.FailAccepts(1+tape.Draw(3, "nacceptfaults"), syscall.EMFILE)
+			synctest.Wait()
+			time.Sleep(3 * time.Second)
+			synctest.Wait()
+			sched.WriteString("A|")
+			o.stat("accept_faults_on_all_listeners", 1)
+			o.stat("listeners_with_accept_faults", k)
+		}
 		o.SimTime = time.Since(wl.Epoch) // the bubble clock starts at the epoch
 		// teardown
 		for _, c := range conns {
@@ -441,7 +453,7 @@ func init() {
 	register(&Check{
 		ID: "C14", Bubble: false, Run: runC14, NoShrink: false,
 		Runs:   map[string]int{"quick": 6000, "thorough": 150000},
-		Rule:   "a case is one run of 3..12 steps; a third of the runs have a second server object serving on another port in the same process; each step releases a seed-chosen batch of 2..8 (thorough ..32) concurrent stimuli (dials, in a quarter of the runs also TLS clients with accepted/rejected/missing certificates doing a real handshake against the TLS port, commands of every family incl. reads of keys that the application answers with prepared message objects (status and error with CR LF in the text, bulk, integer; renewed at every step, shared by all connections), CONFIG SET/GET (also of the TLS file settings and ports) and AUTH, close/reset/half-close, registry queries incl. Close on a returned connection, at most one Start/Stop/Restart, half of them after the application changed or removed the password) and then waits for quiescence; the harness and the repo are built with -race and a report counts when both access stacks contain a framework frame; distinct = distinct stimulus-batch sequences; non-trivial = the run contains a lifecycle call, registry query or disconnect",
+		Rule:   "a case is one run of 3..12 steps; a third of the runs have a second server object serving on another port in the same process; each step releases a seed-chosen batch of 2..8 (thorough ..32) concurrent stimuli (dials, in a quarter of the runs also TLS clients with accepted/rejected/missing certificates doing a real handshake against the TLS port, commands of every family incl. reads of keys that the application answers with prepared message objects (status and error with CR LF in the text, bulk, integer; renewed at every step, shared by all connections), CONFIG SET/GET (also of the TLS file settings and ports) and AUTH, close/reset/half-close, registry queries incl. Close on a returned connection, at most one Start/Stop/Restart; one run in eight ends with EMFILE from the next Accept calls of every listener, half of them after the application changed or removed the password) and then waits for quiescence; the harness and the repo are built with -race and a report counts when both access stacks contain a framework frame; distinct = distinct stimulus-batch sequences; non-trivial = the run contains a lifecycle call, registry query or disconnect",
 		Real:   []string{"redis.Server (all of it) under the Go race detector", "reference store (internally locked)"},
 		Stub:   []string{"network: free-running simulated listener/connections with per-object locks only", "scheduler: seed decides stimuli and step boundaries; inside a step the Go runtime runs freely (the verdict is a happens-before property)"},
 		Assume: []string{"verdicts replay, traces do not: the replay criterion is that the same site pair is reported", "two lifecycle calls are never issued concurrently with each other"},
